@@ -57,9 +57,10 @@ func RemoveSequences[V any, K comparable](s []V, sequencesToRemove *sortedmap.So
 	keepFrom := 0
 	for _, key := range sequencesToRemove.Keys() {
 		sequenceToRemove := mmap[key]
-		keepTo := sequenceToRemove[0]
+		// sequences may overlap or run past the end of s: what is removed is their union, within s
+		keepTo := min(max(sequenceToRemove[0], keepFrom), len(s))
 		newS = append(newS, s[keepFrom:keepTo]...)
-		keepFrom = sequenceToRemove[1]
+		keepFrom = min(max(sequenceToRemove[1], keepTo), len(s))
 	}
 	newS = append(newS, s[keepFrom:]...)
 	return newS
